@@ -13,7 +13,7 @@
 (*                                                                          *)
 (* Data shapes are those of the harness' JSON so that recorded states bind  *)
 (* to the variables without conversion:                                     *)
-(*   train = [n, car_len, car_mass, axles, vmax]                            *)
+(*   train = [n, car_len, car_mass, axles, vmax, more, len_ov, mass_ov]     *)
 (*   link  = [len, head, params : Seq(<<ltype,ctype,val>>),                 *)
 (*            rs : Seq(<<start,end,speed>>)]                                *)
 (*   pts   = Seq(<<offset, limit>>)                                         *)
@@ -37,12 +37,23 @@ InsertAt(p, i, x) == SubSeq(p, 1, i-1) \o <<x>> \o SubSeq(p, i, Len(p))
 RemoveAt(p, i) == SubSeq(p, 1, i-1) \o SubSeq(p, i+1, Len(p))
 
 ----------------------------------------------------------------------------
-(* Train parameters the gates look at (TrainConfig::make_train_params with  *)
-(* one car type, one brake per car, no rotating mass)                       *)
-TLen(t)      == t.n * t.car_len
-MassTotal(t) == t.n * t.car_mass
-MassPerBrake(t) == t.car_mass
-AxleCount(t) == t.n * t.axles
+(* Train parameters (TrainConfig::make_train_params, train_config.rs:155): a train is made of car   *)
+(* types, each with its own count, length, mass, axles, brakes and maximum speed.  The first type is  *)
+(* t itself (one brake per car), t.more lists further types - a type may be listed with 0 cars, it   *)
+(* then contributes nothing, not even its maximum speed.  t.len_ov / t.mass_ov > 0 = explicit        *)
+(* train_length / train_mass overrides.  No rotating mass.                                            *)
+TypesOf(t) == << [n |-> t.n, car_len |-> t.car_len, car_mass |-> t.car_mass, axles |-> t.axles,
+                  vmax |-> t.vmax, brakes |-> 1] >> \o t.more
+RECURSIVE SumSeq(_)
+SumSeq(q) == IF q = <<>> THEN 0 ELSE q[1] + SumSeq(Tail(q))
+TLen(t)      == IF t.len_ov > 0 THEN t.len_ov
+                ELSE LET ty == TypesOf(t) IN SumSeq([k \in 1..Len(ty) |-> ty[k].n * ty[k].car_len])
+MassTotal(t) == IF t.mass_ov > 0 THEN t.mass_ov
+                ELSE LET ty == TypesOf(t) IN SumSeq([k \in 1..Len(ty) |-> ty[k].n * ty[k].car_mass])
+Brakes(t)    == LET ty == TypesOf(t) IN SumSeq([k \in 1..Len(ty) |-> ty[k].n * ty[k].brakes])
+AxleCount(t) == LET ty == TypesOf(t) IN SumSeq([k \in 1..Len(ty) |-> ty[k].n * ty[k].axles])
+(* the train's own maximum speed: the slowest car type actually present *)
+TVmax(t)     == LET ty == TypesOf(t) IN SetMin({ty[k].vmax : k \in {k \in 1..Len(ty) : ty[k].n > 0}})
 
 Cmp(ct, a, b) == CASE ct = 0 -> a = b
                    [] ct = 1 -> a > b
@@ -50,7 +61,7 @@ Cmp(ct, a, b) == CASE ct = 0 -> a = b
                    [] ct = 3 -> a >= b
                    [] ct = 4 -> a <= b
 ParamApplies(t, p) == CASE p[1] = 0 -> Cmp(p[2], MassTotal(t), p[3])
-                        [] p[1] = 1 -> Cmp(p[2], MassPerBrake(t), p[3])
+                        [] p[1] = 1 -> Cmp(p[2], MassTotal(t), p[3] * Brakes(t))     \* mass per brake, cross-multiplied
                         [] p[1] = 2 -> Cmp(p[2], AxleCount(t), p[3])
 SetApplies(t, l) == \A i \in 1..Len(l.params) : ParamApplies(t, l.params[i])
 
@@ -72,7 +83,7 @@ Val(p, x) == LET I == {i \in 1..Len(p) : p[i][1] <= x}
              IN IF I = {} THEN -1 ELSE Abs(p[CHOOSE i \in I : \A j \in I : j <= i][2])      \* enforced = magnitude
 
 Canon(t, ls, x) ==
-  SetMin({t.vmax} \cup {Abs(Glob(t, ls, kj[1], kj[2])[3]) :
+  SetMin({TVmax(t)} \cup {Abs(Glob(t, ls, kj[1], kj[2])[3]) :
             kj \in {a \in Active(t, ls) : LET g == Glob(t, ls, a[1], a[2]) IN g[1] <= x /\ x < g[2]}})
 
 (* both sides are right-continuous step functions: comparing at every break of either decides *)
@@ -130,7 +141,7 @@ Insert(p, s, e, v) ==
 (* PathTpc::add_speeds for restriction j of link k *)
 AddOne(t, ls, p, k, j) ==
   LET g == Glob(t, ls, k, j)
-  IN IF SetApplies(t, ls[k]) /\ g[3] < t.vmax THEN Insert(p, g[1], g[2], g[3]) ELSE p
+  IN IF SetApplies(t, ls[k]) /\ g[3] < TVmax(t) THEN Insert(p, g[1], g[2], g[3]) ELSE p
 
 RECURSIVE ModelLink(_, _, _, _, _)
 ModelLink(t, ls, p, k, j) == IF j > Len(ls[k].rs) THEN p
@@ -138,7 +149,7 @@ ModelLink(t, ls, p, k, j) == IF j > Len(ls[k].rs) THEN p
 RECURSIVE ModelFrom(_, _, _, _)
 ModelFrom(t, ls, p, k) == IF k > Len(ls) THEN p ELSE ModelFrom(t, ls, ModelLink(t, ls, p, k, 1), k+1)
 (* the profile Level B predicts for a whole route *)
-ModelPts(t, ls) == ModelFrom(t, ls, << <<0, t.vmax>> >>, 1)
+ModelPts(t, ls) == ModelFrom(t, ls, << <<0, TVmax(t)>> >>, 1)
 
 ----------------------------------------------------------------------------
 (* Level B as a transition system: configurations are enumerated by actions  *)
@@ -153,7 +164,7 @@ Lt(a, b) == \/ a[1] < b[1] \/ (a[1] = b[1] /\ a[2] < b[2])
 
 Init == /\ train \in Trains
         /\ links = <<>>
-        /\ pts = << <<0, train.vmax>> >>
+        /\ pts = << <<0, TVmax(train)>> >>
 
 NewLink == /\ Len(links) < MaxLinks
            /\ \E len \in LinkLens, head \in BOOLEAN, g \in Gates :
